@@ -37,6 +37,7 @@ MODULES = [
     "lockstep",
     "sparsefmt",
     "counts",
+    "windows",
 ]
 
 
